@@ -129,7 +129,7 @@ SIDES = {
     "c": {"type": ("lang/c/templates/base.j2", r"static_assert\(\s*"), "support": ("lang/c/support/serialization.j2", r"#define\s+")},
     "cpp": {"type": ("lang/cpp/templates/base.j2", r"static_assert\(\s*nunavut::support::options::"), "support": ("lang/cpp/support/serialization.j2", r"constexpr\s+std::uint32_t\s+")},
 }
-ALLOWED_GUARDS = {("cpp", "type"): {"not nunavut.support.omit"}}  # nothing to mix with when serialization support is omitted
+ALLOWED_GUARDS = {("cpp", "type"): {"not nunavut.support.omit"}, ("c", "type"): {"not nunavut.support.omit"}}  # nothing to mix with when serialization support is omitted
 
 
 def structural(run):
